@@ -161,13 +161,23 @@ Proof.
   destruct x; simpl; [|exact IH]. destruct (should_include dirs); simpl; rewrite IH; reflexivity.
 Qed.
 
+Lemma incl_field_idem : forall l, filter incl_node (filter incl_field l) = filter incl_field l.
+Proof.
+  induction l as [|x t IH]; simpl; auto. destruct x; simpl; [|exact IH].
+  destruct (should_include dirs) eqn:E; simpl; [rewrite E, IH; reflexivity | exact IH].
+Qed.
+
 Section Collect.
+  Variable prune : bool.
   Variable g : gschema.
   Variable obj : string.
 
+  Lemma own_fields_incl : forall l, filter incl_node (own_fields prune l) = filter incl_field l.
+  Proof. intros l. unfold own_fields. destruct prune; [apply incl_field_idem | apply filter_incl_fields]. Qed.
+
   Lemma contribs_collect : forall subs cs,
-    Forall (fun n => forall c, frag_contrib g obj n = Some c -> filter incl_node c = collect_frag g obj n) subs ->
-    Forall2 (fun o c => o = Some c) (map (frag_contrib g obj) subs) cs ->
+    Forall (fun n => forall c, frag_contrib_gen prune g obj n = Some c -> filter incl_node c = collect_frag g obj n) subs ->
+    Forall2 (fun o c => o = Some c) (map (frag_contrib_gen prune g obj) subs) cs ->
     List.concat (map (filter incl_node) cs) = List.concat (map (collect_frag g obj) subs).
   Proof.
     intros subs cs H. revert cs. induction H as [|x t Hx Ht IH]; intros cs F; simpl in F.
@@ -175,26 +185,62 @@ Section Collect.
     - inversion F as [|? c ? cs' Hc F']; subst. simpl. rewrite (Hx c Hc), (IH cs' F'). reflexivity.
   Qed.
 
-  Lemma contrib_collect : forall n c, frag_contrib g obj n = Some c -> filter incl_node c = collect_frag g obj n.
+  Lemma contrib_collect : forall n c, frag_contrib_gen prune g obj n = Some c -> filter incl_node c = collect_frag g obj n.
   Proof.
     induction n using node_ind'; intros c Hc; simpl in Hc |- *.
     - inversion Hc; reflexivity.
     - destruct (should_include dirs); [|inversion Hc; reflexivity].
       destruct (applies g obj on) as [[|]|]; [| inversion Hc; reflexivity | discriminate].
-      destruct (concat_opt (map (frag_contrib g obj) subs)) as [rest|] eqn:Er; [|discriminate].
+      destruct (concat_opt (map (frag_contrib_gen prune g obj) subs)) as [rest|] eqn:Er; [|discriminate].
       inversion Hc; subst c. apply concat_opt_Forall2 in Er as [cs [F ->]].
-      rewrite filter_app, filter_incl_fields, filter_concat, (contribs_collect subs cs H F). reflexivity.
+      rewrite filter_app, own_fields_incl, filter_concat, (contribs_collect subs cs H F). reflexivity.
   Qed.
 
-  (** flattenFragments, when it succeeds, yields -- after dropping the selections @skip/@include exclude, which
-      planObject does -- exactly the fields CollectFields yields, in the same order. *)
-  Theorem flatten_frags_collects : forall l flat, flatten_frags g obj l = Some flat ->
+  (** flattenFragments, when it succeeds, yields -- after dropping the selections @skip/@include exclude (which
+      the code before the repair left to planObject, after the grouping by alias) -- exactly the fields
+      CollectFields yields, in the same order. *)
+  Theorem flatten_frags_gen_collects : forall l flat, flatten_frags_gen prune g obj l = Some flat ->
     filter incl_node flat = collect_all g obj l.
   Proof.
-    intros l flat H. unfold flatten_frags in H.
-    destruct (concat_opt (map (frag_contrib g obj) l)) as [rest|] eqn:Er; [|discriminate].
+    intros l flat H. unfold flatten_frags_gen in H.
+    destruct (concat_opt (map (frag_contrib_gen prune g obj) l)) as [rest|] eqn:Er; [|discriminate].
     inversion H; subst flat. apply concat_opt_Forall2 in Er as [cs [F ->]].
-    unfold collect_all. rewrite filter_app, filter_incl_fields, filter_concat. f_equal.
+    unfold collect_all. rewrite filter_app, own_fields_incl, filter_concat. f_equal.
     apply contribs_collect; auto. clear. induction l; constructor; auto. intros c Hc. apply contrib_collect; exact Hc.
   Qed.
 End Collect.
+
+(** as repaired, flattenFragments only yields selections their own directives keep: it IS CollectFields *)
+Lemma all_incl_filter : forall l, Forall (fun n => incl_node n = true) l -> filter incl_node l = l.
+Proof. intros l H. induction H as [|x t Hx _ IH]; simpl; [reflexivity|]. rewrite Hx, IH. reflexivity. Qed.
+
+Lemma incl_field_node : forall l, Forall (fun n => incl_node n = true) (filter incl_field l).
+Proof.
+  intros l. apply Forall_forall. intros x Hx. apply filter_In in Hx as [_ Hx]. destruct x; simpl in *; [exact Hx | discriminate].
+Qed.
+
+Lemma Forall_concat_nodes : forall (P : node -> Prop) (ls : list (list node)), Forall (Forall P) ls -> Forall P (List.concat ls).
+Proof. intros P ls H. induction H as [|x t Hx _ IH]; simpl; [constructor | apply Forall_app; auto]. Qed.
+
+Lemma frag_contrib_incl : forall g obj n c, frag_contrib g obj n = Some c -> Forall (fun n => incl_node n = true) c.
+Proof.
+  intros g obj. induction n using node_ind'; intros c Hc; unfold frag_contrib in Hc; simpl in Hc.
+  - inversion Hc; constructor.
+  - destruct (should_include dirs); [|inversion Hc; constructor].
+    destruct (applies g obj on) as [[|]|]; [| inversion Hc; constructor | discriminate].
+    destruct (concat_opt (map (frag_contrib_gen true g obj) subs)) as [rest|] eqn:Er; [|discriminate].
+    inversion Hc; subst c. apply Forall_app. split; [apply incl_field_node|].
+    apply concat_opt_Forall2 in Er as [cs [F ->]]. apply Forall_concat_nodes.
+    clear Hc. revert cs F. induction H as [|x t Hx _ IH]; intros cs F; simpl in F; inversion F; subst; constructor; auto.
+Qed.
+
+Theorem flatten_frags_collects : forall g obj l flat, flatten_frags g obj l = Some flat -> flat = collect_all g obj l.
+Proof.
+  intros g obj l flat H. rewrite <- (flatten_frags_gen_collects true g obj l flat H). symmetry. apply all_incl_filter.
+  unfold flatten_frags, flatten_frags_gen in H.
+  destruct (concat_opt (map (frag_contrib_gen true g obj) l)) as [rest|] eqn:Er; [|discriminate].
+  inversion H; subst flat. apply Forall_app. split; [apply incl_field_node|].
+  apply concat_opt_Forall2 in Er as [cs [F ->]]. apply Forall_concat_nodes.
+  clear H. revert cs F. induction l as [|x t IH]; intros cs F; simpl in F; inversion F; subst; constructor; auto.
+  eapply frag_contrib_incl; eauto.
+Qed.
